@@ -55,41 +55,107 @@ def non_test(src):
     return strip_hooks(src)
 
 
-# every mention of a hash collection in non-test code on the build path, as (file, count of `HashMap`, count of `HashSet`);
-# each one is accounted for below or in design.d/C10.md ("hash collections that do not reach output")
-CENSUS = {
-    "mos-core/src/parser/ast.rs": (3, 0),            # use; ParseTree.files (x2: field, new()) -- lookups by key only
-    "mos-core/src/parser/mod.rs": (3, 0),            # use; `files` of parse() (type + ::new) -- insert only
-    "mos-core/src/parser/source.rs": (3, 0),         # use; InMemoryParsingSource.files -- lookups only
-    "mos-core/src/parser/code_map.rs": (0, 0),
-    "mos-core/src/codegen/mod.rs": (4, 4),           # predefined_constants (empty for `build`), functions; undefined, prev_undefined
-    "mos-core/src/codegen/symbols.rs": (8, 3),       # children, visible_symbols (LSP/DAP only), all, all_impl, ensure_cpu_symbols
-    "mos-core/src/codegen/analysis.rs": (3, 2),      # definitions, usages: LSP only (not written by `build`)
-    "mos-core/src/codegen/config_validator.rs": (0, 5),
-    "mos-core/src/codegen/evaluator.rs": (2, 0),     # FunctionMap: lookups by name only
-    "mos-core/src/codegen/source_map.rs": (0, 0),
-    "mos-core/src/codegen/segment.rs": (0, 0),
-    "mos-core/src/io/vice.rs": (0, 0),
-    "mos-core/src/io/listing.rs": (3, 0),            # use, return type, ::new
-    "mos-core/src/io/binary_writer.rs": (2, 0),      # use, write_banks `files`: entry() by key only, never iterated
-    "mos-core/src/errors.rs": (0, 0),
-    "mos/src/commands/build.rs": (0, 0),
-    "mos/src/diagnostic_emitter.rs": (0, 0),
-    "mos/src/config.rs": (0, 0),
+# ---- census of hash ITERATIONS on the build path --------------------------------------------------------------------
+# Declaring a HashMap/HashSet and using it for lookups (`get`, `contains`, `insert`, `entry`, `is_empty`, `==`) cannot leak an order;
+# iterating it can.  For every file on the build path: (a) the names bound to a hash collection (fields, parameters, locals, via the
+# std types or a type alias of them) and every place where such a name is iterated (`.iter()`, `.into_iter()`, `.keys()`, `.values()`,
+# `.drain()`, `for .. in name`, `.extend(name)`); (b) every call of a function that RETURNS a hash collection.  The expected sites
+# are listed below with the reason each is harmless or which model site covers it; anything else is a broken tie.
+BUILD_PATH = [
+    "mos-core/src/parser/ast.rs", "mos-core/src/parser/mod.rs", "mos-core/src/parser/source.rs", "mos-core/src/parser/code_map.rs",
+    "mos-core/src/codegen/mod.rs", "mos-core/src/codegen/symbols.rs", "mos-core/src/codegen/analysis.rs",
+    "mos-core/src/codegen/config_validator.rs", "mos-core/src/codegen/config_extractor.rs", "mos-core/src/codegen/evaluator.rs",
+    "mos-core/src/codegen/source_map.rs", "mos-core/src/codegen/segment.rs", "mos-core/src/codegen/program_counter.rs",
+    "mos-core/src/codegen/opcodes.rs", "mos-core/src/codegen/text_encoding.rs",
+    "mos-core/src/io/vice.rs", "mos-core/src/io/listing.rs", "mos-core/src/io/binary_writer.rs", "mos-core/src/errors.rs",
+    "mos/src/commands/build.rs", "mos/src/diagnostic_emitter.rs", "mos/src/config.rs", "mos/src/main.rs",
+]
+ITER_METHODS = "iter|iter_mut|into_iter|keys|values|values_mut|into_keys|into_values|drain"
+
+EXPECTED_ITERATIONS = {
+    # file: sorted ["name.how", ...]
+    "mos-core/src/codegen/mod.rs": [
+        "predefined_constants.for",      # inserted into the symbol table; empty for `mos build` (only the test runner passes constants)
+        "undefined.iter",                # model site report_undefined (sorted by (name, span))
+    ],
+    "mos-core/src/codegen/config_validator.rs": [
+        "req.iter",                      # model site missing_required (`.sorted()` on whole strings)
+    ],
+    "mos-core/src/codegen/analysis.rs": [
+        "usages.iter", "usages.iter", "usages.iter", "usages.iter",   # Definition::usages* / try_get_usages: LSP navigation only, nothing `build` prints
+        "definitions.iter",                        # Analysis::find / look-ups for the LSP
+    ],
+}
+EXPECTED_HASH_FN_CALLS = {
+    # calls of functions returning a hash collection: (file, function) -> count
+    ("mos-core/src/codegen/mod.rs", "children"): 1,      # model site import_all (sorted by (node index, identifier))
+    ("mos-core/src/codegen/mod.rs", "all"): 1,           # finalize(): greedy analysis of unused macros -- LSP option only
+    ("mos-core/src/codegen/symbols.rs", "children"): 2,  # remove_all (order irrelevant: removes a whole subtree), all_impl (model site all_impl)
+    ("mos-core/src/io/vice.rs", "all"): 1,               # model site to_vice_symbols (`.sorted()`)
+    ("mos/src/commands/build.rs", "to_listing"): 1,      # model site write_listings (`listings.sort()`)
 }
 
 
+def hash_census():
+    names_by_file, fns = {}, set()
+    texts = {}
+    for f in BUILD_PATH:
+        try:
+            src = norm(non_test(read(f)))
+        except FileNotFoundError:
+            continue
+        texts[f] = src
+        aliases = set(re.findall(r"type (\w+) = Hash(?:Map|Set)<", src))
+        ty = "(?:(?:std::collections::)?Hash(?:Map|Set)" + "".join("|" + a for a in aliases) + ")"
+        names = set(re.findall(r"\b(\w+): (?:&(?:mut )?)?(?:Arc<(?:RefCell|Mutex)<)?" + ty + r"\b", src))
+        names |= set(re.findall(r"let (?:mut )?(\w+)(?:: [^=;]+)? = (?:std::collections::)?Hash(?:Map|Set)::(?:new|with_capacity|from)\(", src))
+        names |= set(re.findall(r"let (?:mut )?(\w+)(?:: [^=;]+)? = [^;]*?collect::<(?:std::collections::)?Hash(?:Map|Set)\b", src))
+        # a clone / take of a hash-typed name is a hash collection too (`let mut req = self.required.clone()`)
+        for _ in range(2):
+            for n in list(names):
+                names |= set(re.findall(r"let (?:mut )?(\w+) = (?:std::mem::take\(&mut )?(?:\w+\.)*%s(?:\.clone\(\)|\))" % re.escape(n), src))
+        names_by_file[f] = names
+        fns |= set(re.findall(r"fn (\w+)(?:<[^>]*>)?\([^{;]*?\) -> (?:CoreResult<)?" + ty + r"\b", src))
+    # type aliases defined in one file may be used in another (FunctionMap)
+    all_aliases = set()
+    for src in texts.values():
+        all_aliases |= set(re.findall(r"type (\w+) = Hash(?:Map|Set)<", src))
+    for f, src in texts.items():
+        for a in all_aliases:
+            names_by_file[f] |= set(re.findall(r"\b(\w+): (?:&(?:mut )?)?" + a + r"\b", src))
+    iters, calls = {}, {}
+    for f, src in texts.items():
+        found = []
+        for n in sorted(names_by_file[f]):
+            for m in re.finditer(r"\b%s ?\.(%s)\(" % (re.escape(n), ITER_METHODS), src):
+                found.append("%s.iter" % n)
+            for m in re.finditer(r"\bin &?(?:mut )?(?:\w+\.)*%s\b(?! ?\.(?:get|contains|len|is_empty))" % re.escape(n), src):
+                found.append("%s.for" % n)
+            for m in re.finditer(r"\.extend\((?:\w+\.)*%s\)" % re.escape(n), src):
+                found.append("%s.extend" % n)
+        if found:
+            iters[f] = sorted(found)
+        for fn in sorted(fns):
+            c = len(re.findall(r"(?<!fn )(?:\.|\b)%s\(" % re.escape(fn), src)) - len(re.findall(r"fn %s\b" % re.escape(fn), src))
+            c = len([m for m in re.finditer(r"(?:\.|(?<![\w.]))%s\(" % re.escape(fn), src) if not src[max(0, m.start() - 3):m.start()].endswith("fn ")])
+            if c and fn not in ("new",):
+                calls[(f, fn)] = c
+    return iters, calls, sorted(fns)
+
+
 def census():
-    got = {}
-    for f, want in CENSUS.items():
-        src = non_test(read(f))
-        have = (len(re.findall(r"\bHashMap\b", src)), len(re.findall(r"\bHashSet\b", src)))
-        got[f] = have
-        if have != want:
-            raise ShapeError("hash-collection census of %s changed: HashMap x%d, HashSet x%d (modelled: %d, %d) -- "
-                             "a hash collection on the build path that the C10 model does not account for"
-                             % (f, have[0], have[1], want[0], want[1]))
-    return got
+    iters, calls, fns = hash_census()
+    want_i = {k: sorted(v) for k, v in EXPECTED_ITERATIONS.items()}
+    if iters != want_i:
+        diff = {f: (iters.get(f), want_i.get(f)) for f in set(iters) | set(want_i) if iters.get(f) != want_i.get(f)}
+        raise ShapeError("iterations over hash collections on the build path changed (found, modelled): %s -- a hash iteration the C10 model "
+                         "does not account for (or one that went away)" % diff)
+    # visible_symbols is only called from the LSP / debugger; flag it if the build path starts to use it
+    if calls != EXPECTED_HASH_FN_CALLS:
+        diff = {str(k): (calls.get(k), EXPECTED_HASH_FN_CALLS.get(k)) for k in set(calls) | set(EXPECTED_HASH_FN_CALLS)
+                if calls.get(k) != EXPECTED_HASH_FN_CALLS.get(k)}
+        raise ShapeError("calls of functions that return a hash collection changed on the build path (found, modelled): %s" % diff)
+    return {"iterations": iters, "hash_fn_calls": {"%s:%s" % k: v for k, v in calls.items()}, "hash_returning_fns": fns}
 
 
 def translate():
@@ -176,9 +242,13 @@ def translate():
     sites["vice_sorted"] = "true" if m.group(1) else "false"
     # ---- 7. listing
     li = norm(non_test(read("mos-core/src/io/listing.rs")))
-    if ") -> CoreResult<HashMap<PathBuf, String>> { let mut listing = HashMap::new(); for file in ctx.tree().code_map.files() {" not in li \
-            or "listing.insert(PathBuf::from(file.name()), result);" not in li:
-        raise ShapeError("to_listing changed shape")
+    # anchors only (the body between them renders one file's text and iterates nothing hash-ordered: census below)
+    for frag in (") -> CoreResult<HashMap<PathBuf, String>> {", "let mut listing = HashMap::new();",
+                 "for file in ctx.tree().code_map.files() {", "listing.insert(PathBuf::from(file.name()), result);"):
+        if frag not in li:
+            raise ShapeError("to_listing changed shape (expected `%s`)" % frag)
+    if li.index("let mut listing = HashMap::new();") > li.index("for file in ctx.tree().code_map.files() {"):
+        raise ShapeError("to_listing: the listing map is no longer filled by the loop over the code map")
     bu = norm(non_test(read("mos/src/commands/build.rs")))
     if ("let mut listings: Vec<_> = to_listing(&generated_code, cfg.formatting.listing.num_bytes_per_line)? .into_iter() .collect(); "
             "listings.sort(); for (source_path, contents) in listings {") in bu:
@@ -208,7 +278,7 @@ def translate():
            "  mkSites %s %s %s %s %s." % (sites["to_import"], sites["undef_key"], sites["vice_sorted"], sites["listing"], sites["import_all"])]
     fp = write_if_changed("ReproSites.v", "\n".join(out) + "\n")
     return {"file": "Gen/ReproSites.v", "fingerprint": fp, "sites": sites,
-            "census": {k: list(v) for k, v in cen.items() if v != (0, 0)}}
+            "census": cen}
 
 
 if __name__ == "__main__":
